@@ -14,6 +14,7 @@ import Robsd.Model.Flock
 import Robsd.Model.Arena
 import Robsd.Model.RegressHtml
 import Robsd.Model.Runner
+import Robsd.Model.Conf
 /-
   robsd_model: the executable models behind a line protocol.
   One request per line: `<component> <op> <args…>`; byte strings are hex
@@ -240,8 +241,30 @@ def runnerRun (fuel : Nat) (sig nat aterm akill : String) : String :=
     | .killTerm => "term" | .killKill => "kill" | .reap _ => "reap" | .giveUp => "giveup" | .running => "running"
   s!"{r.2} " ++ ",".intercalate acts
 
+def confRun (ws : List String) : String :=
+  let kv := kvOf ws
+  let g := kvGet kv
+  let mode : Conf.Mode := match g "mode" with
+    | "robsd" => .robsd | "robsd-cross" => .cross | "robsd-ports" => .ports | "robsd-regress" => .regress | _ => .canvas
+  let dirs := (listOf (g "dirs")).map hexArg
+  let users := (listOf (g "users")).map hexArg
+  -- glob=pattern:!          error
+  -- glob=pattern:.          no match
+  -- glob=pattern:a;b        matches
+  let globs : List (Bytes × Option (Option (List Bytes))) := (listOf (g "glob")).filterMap fun e => match e.splitOn ":" with
+    | p :: r :: [] => some (hexArg p, if r == "!" then none else if r == "." then some none else some (some ((r.splitOn ";").map hexArg)))
+    | _ => none
+  let env : Conf.Env := {
+    isDir := fun p => dirs.contains p, userExists := fun u => users.contains u,
+    glob := fun p => match globs.find? (·.1 == p) with | some e => e.2 | none => some none,
+    arch := hexArg (g "arch"), machine := hexArg (g "machine"), lock := optHex (g "lock"), execDir := hexArg (g "exec"),
+    ncpu := (g "ncpu").toNat?.getD 1, inet := hexArg (g "inet"), inet6 := hexArg (g "inet6") }
+  let r := Conf.configCmd mode env (hexArg (g "file")) (hexArg (g "tmpl"))
+  s!"{r.1} {toHex r.2}"
+
 def handle (ws : List String) : String :=
   match ws with
+  | "conf" :: rest => confRun rest
   | "runner" :: fuel :: sig :: nat :: aterm :: akill :: [] => runnerRun (fuel.toNat?.getD 0) sig nat aterm akill
   | "rhtml" :: order :: invs => rhtmlRun (natList order) (invs.filterMap rhtmlInv)
   | "arena" :: hdr :: fsz :: pz :: csz :: ops :: [] =>
